@@ -386,7 +386,7 @@ def sweep_stage(ctx, cov):
     ok, out = cargo_build(ctx, ["conc"])
     if not ok:
         return
-    outs = run_conc(ctx, 4, ["cases=0", "sweeps=%d" % (25 if ctx.tier == "quick" else 600)])
+    outs = run_conc(ctx, 4, ["cases=0", "sweeps=%d" % (25 if ctx.tier == "quick" else 600), "sweeprace=%d" % (2 if ctx.tier == "quick" else 30)])
     n = bad = 0
     kinds = {}
     for o in outs:
@@ -394,7 +394,7 @@ def sweep_stage(ctx, cov):
             violation(ctx, "conc harness did not finish: " + o["crash"], o["crash"], tag="crash")
             continue
         for k, v in o["meta"]["kinds"].items():
-            if k.startswith("sweep race"):
+            if k.startswith("sweep race") or k.startswith("sweeprace"):
                 kinds[k] = kinds.get(k, 0) + v
         n += o["meta"]["kinds"].get("sweep race case", 0)
         for f in o["fails"]:
